@@ -7,7 +7,12 @@ ObserverList {entries, notify_depth, compact_pending}; while a notification pass
 tombstone and compaction is deferred.
 RInv:  single => not null;  many => entries pairwise distinct apart from tombstones, notify_depth >= 0, and outside a pass with nothing
        pending (depth = 0, not compact_pending) no tombstones and at least two entries.
-Observers are integer ids (0 = nullptr); asserts are executed as in a release build (the defensive code behind them is verified)."""
+Observers are integer ids (0 = nullptr); asserts are executed as in a release build (the defensive code behind them is verified).
+
+Quantifier discipline: membership is NOT stated as "exists an index"; the entries vector is instrumented with a ghost position
+function  pos[x] = the index x was last written to, and RInv says every non-null entry sits at its recorded position
+(data[i] != 0 => pos[data[i]] = i).  Then  x in obs  <=>  x != 0 and 0 <= pos[x] < len and data[pos[x]] = x, and every obligation is
+alternation-free (the first version with existentials proved in 9 s or 33 s depending on the solver's mood: unusable)."""
 import z3
 
 from cxxvc.kernel import Kernel, LoopSpec
@@ -23,6 +28,42 @@ qi, qj, qx = z3.Ints("qi qj qx")
 
 class ListObj(Obj):
     cls = "ObserverList"
+
+
+class PosVec(Vec):
+    """std::vector<Notifiable*> with the ghost position function maintained on every element write"""
+
+    def __init__(self, ctx, k, name):
+        Vec.__init__(self, ctx, name=name)
+        self.k = k
+
+    def note(self, ctx, idx, v):
+        pos = ctx.store[(self.k.g.oid, "pos")]
+        ctx.write(Loc((self.k.g.oid, "pos")), z3.If(v != 0, z3.Store(pos, v, idx), pos))
+
+    def m_push_back(self, I, args, n):
+        ctx = I.ctx
+        v = ctx.rv(args[0])
+        if isinstance(v, Ptr) and v.target is None:
+            v = z3.IntVal(0)
+        self.note(ctx, self.length(ctx), v)
+        return Vec.m_push_back(self, I, [v], n)
+
+    m_emplace_back = m_push_back
+
+    def elem_loc(self, idx):
+        return PosLoc(self, idx)
+
+
+class PosLoc(ArrLoc):
+    """element location whose writes also update the ghost position"""
+
+    def __init__(self, vec, idx):
+        ArrLoc.__init__(self, (vec.oid, "data"), idx)
+        self.vec = vec
+
+    def on_write(self, ctx, v):
+        self.vec.note(ctx, self.index, v)
 
 
 class DPtr(Obj):
@@ -94,47 +135,55 @@ class ObsKernel(Kernel):
         ctx.store[(self.dp.oid, "tag")] = self.tag0
         ctx.store[(self.dp.oid, "single")] = self.single0
         ctx.store[(th.oid, "observers_")] = self.dp
-        self.vec = Vec(ctx, name="entries")
+        g = Obj("ghost", "og")
+        self.g = g
+        self.pos0 = z3.Array("position0", I_, I_)
+        ctx.store[(g.oid, "pos")] = self.pos0
+        self.vec = PosVec(ctx, self, "entries")
         self.len0, self.data0 = self.vec.length(ctx), self.vec.data(ctx)
         self.depth0, self.pending0 = z3.Int("notify_depth0"), z3.Bool("compact_pending0")
         ctx.store[(self.lst.oid, "entries")] = self.vec
         ctx.store[(self.lst.oid, "notify_depth")] = self.depth0
         ctx.store[(self.lst.oid, "compact_pending")] = self.pending0
-        g = Obj("ghost", "og")
-        self.g = g
         ctx.store[(g.oid, "deleted")] = z3.BoolVal(False)
         ctx.store[(g.oid, "allocated")] = z3.BoolVal(False)
         ctx.store[(g.oid, "notified")] = z3.K(I_, z3.IntVal(0))
         ctx.store[(g.oid, "unsubscribed")] = z3.K(I_, z3.BoolVal(False))     # observers tombstoned by a re-entrant call during the pass
         ctx.assume(z3.And(self.tag0 >= 0, self.tag0 <= 2))
-        ctx.assume(self.r_inv(self.tag0, self.single0, self.len0, self.data0, self.depth0, self.pending0))
+        ctx.assume(self.r_inv(self.tag0, self.single0, self.len0, self.data0, self.depth0, self.pending0, self.pos0))
         return th, self.params(I)
 
     @staticmethod
-    def r_inv(tag, single, ln, data, depth, pending):
+    def inlist(ln, data, pos, x):
+        return z3.And(x != 0, pos[x] >= 0, pos[x] < ln, data[pos[x]] == x)
+
+    @staticmethod
+    def link(ln, data, pos):
+        return z3.ForAll([qi], z3.Implies(z3.And(qi >= 0, qi < ln, data[qi] != 0), pos[data[qi]] == qi))
+
+    @classmethod
+    def r_inv(cls, tag, single, ln, data, depth, pending, pos):
         return z3.And(
             z3.Implies(tag == 1, single != 0),
             z3.Implies(tag == 2, z3.And(
-                ln >= 0, depth >= 0,
-                z3.ForAll([qi, qj], z3.Implies(z3.And(qi >= 0, qi < ln, qj >= 0, qj < ln, data[qi] == data[qj], data[qi] != 0), qi == qj)),
-                z3.Implies(z3.And(depth == 0, z3.Not(pending)), z3.And(ln >= 2, z3.ForAll([qi], z3.Implies(z3.And(qi >= 0, qi < ln), data[qi] != 0)))),
-                z3.Implies(z3.Exists([qi], z3.And(qi >= 0, qi < ln, data[qi] == 0)), pending))))
+                ln >= 0, depth >= 0, cls.link(ln, data, pos),
+                z3.Implies(z3.And(depth == 0, z3.Not(pending)), ln >= 2),
+                z3.ForAll([qi], z3.Implies(z3.And(qi >= 0, qi < ln, data[qi] == 0), pending)))))
 
-    @staticmethod
-    def member(tag, single, ln, data, x):
-        return z3.And(x != 0, z3.Or(z3.And(tag == 1, single == x),
-                                    z3.And(tag == 2, z3.Exists([qi], z3.And(qi >= 0, qi < ln, data[qi] == x)))))
+    @classmethod
+    def member(cls, tag, single, ln, data, pos, x):
+        return z3.And(x != 0, z3.Or(z3.And(tag == 1, single == x), z3.And(tag == 2, cls.inlist(ln, data, pos, x))))
 
     def now(self, ctx):
         return (ctx.store[(self.dp.oid, "tag")], ctx.store[(self.dp.oid, "single")], self.vec.length(ctx), self.vec.data(ctx),
-                ctx.store[(self.lst.oid, "notify_depth")], ctx.store[(self.lst.oid, "compact_pending")])
+                ctx.store[(self.lst.oid, "notify_depth")], ctx.store[(self.lst.oid, "compact_pending")], ctx.store[(self.g.oid, "pos")])
 
     def member0(self, x):
-        return self.member(self.tag0, self.single0, self.len0, self.data0, x)
+        return self.member(self.tag0, self.single0, self.len0, self.data0, self.pos0, x)
 
     def member1(self, ctx, x):
-        t, s, ln, d, _, _ = self.now(ctx)
-        return self.member(t, s, ln, d, x)
+        t, s, ln, d, _, _, pos = self.now(ctx)
+        return self.member(t, s, ln, d, pos, x)
 
     # std::find over the entries: first position holding the value, end() when none
     def f_find(self, I, args, n):
@@ -145,9 +194,11 @@ class ObsKernel(Kernel):
         if isinstance(x, Ptr) and x.target is None:
             x = z3.IntVal(0)
         ln, d = self.vec.length(ctx), self.vec.data(ctx)
-        r = ctx.fresh("find_position")
-        ctx.assume(z3.And(r >= 0, r <= ln, z3.ForAll([qi], z3.Implies(z3.And(qi >= 0, qi < r), d[qi] != x)),
-                          z3.Implies(r < ln, d[r] == x)))
+        pos = ctx.store[(self.g.oid, "pos")]
+        if z3.is_int_value(x) and x.as_long() == 0:
+            raise Gap("std::find of nullptr")
+        # under RInv's link every non-null entry sits at its recorded position, so the first match is pos[x]
+        r = z3.If(self.inlist(ln, d, pos, x), pos[x], ln)
         return VecIter(self.vec, r)
 
     def function_handler(self, name, node, callee_node):
@@ -181,16 +232,16 @@ class ObsKernel(Kernel):
         """contract proved by CompactMany: with depth > 0 only marks pending; otherwise removes the tombstones (the set of non-null
         entries is kept), clears pending, and collapses to empty / single when 0 / 1 entries remain"""
         ctx = I.ctx
-        tag, single, ln, d, depth, pend = self.now(ctx)
+        tag, single, ln, d, depth, pend, pos = self.now(ctx)
         if ctx.decide(depth > 0, "compact while notifying"):
             ctx.write(self.lst.loc("compact_pending"), z3.BoolVal(True))
             return VOID
         nl, nd = ctx.fresh("compacted_len"), ctx.fresh("compacted_data", d.sort())
+        npos = ctx.fresh("compacted_pos", pos.sort())
         ctx.assume(z3.And(nl >= 0, nl <= ln,
-                          z3.ForAll([qi], z3.Implies(z3.And(qi >= 0, qi < nl), nd[qi] != 0)),
-                          z3.ForAll([qi, qj], z3.Implies(z3.And(qi >= 0, qi < nl, qj >= 0, qj < nl, nd[qi] == nd[qj]), qi == qj)),
-                          z3.ForAll([qx], z3.Implies(qx != 0, z3.Exists([qi], z3.And(qi >= 0, qi < nl, nd[qi] == qx)) ==
-                                                     z3.Exists([qj], z3.And(qj >= 0, qj < ln, d[qj] == qx))))))
+                          z3.ForAll([qi], z3.Implies(z3.And(qi >= 0, qi < nl), z3.And(nd[qi] != 0, npos[nd[qi]] == qi))),
+                          z3.ForAll([qx], self.inlist(nl, nd, npos, qx) == self.inlist(ln, d, pos, qx))))
+        ctx.write(Loc((self.g.oid, "pos")), npos)
         ctx.write(Loc((self.vec.oid, "len")), nl)
         ctx.write(Loc((self.vec.oid, "data")), nd)
         ctx.write(self.lst.loc("compact_pending"), z3.BoolVal(False))
@@ -254,7 +305,7 @@ class Unsubscribe(ObsKernel):
         ctx.oblige("ensures.obs'=obs-{observer}[C03 ticks on passive inputs alone never run the node: a de-activated link is no longer "
                    "notified]",
                    z3.ForAll([qx], self.member1(ctx, qx) == z3.And(self.member0(qx), qx != self.o)), kind="post-normal")
-        tag, single, ln, d, depth, pend = self.now(ctx)
+        tag, single, ln, d, depth, pend, pos = self.now(ctx)
         ctx.oblige("ensures.during-a-pass-positions-are-kept[C03 the running pass still visits every other observer exactly once]",
                    z3.Implies(z3.And(self.tag0 == 2, self.depth0 > 0), z3.And(
                        tag == 2, ln == self.len0, depth == self.depth0,
@@ -278,16 +329,15 @@ class CompactMany(ObsKernel):
 
     def _inv(self, I, ctx):
         idx = self.local(I, "index")
-        tag, single, ln, d, depth, pend = self.now(ctx)
+        tag, single, ln, d, depth, pend, pos = self.now(ctx)
         yield "index-range", z3.And(idx >= 0, idx <= ln, ln <= self.len0)
         yield "prefix-has-no-tombstones", z3.ForAll([qi], z3.Implies(z3.And(qi >= 0, qi < idx), d[qi] != 0))
-        yield "non-null-entries-kept", z3.ForAll([qx], z3.Implies(qx != 0, z3.Exists([qi], z3.And(qi >= 0, qi < ln, d[qi] == qx)) ==
-                                                                   z3.Exists([qj], z3.And(qj >= 0, qj < self.len0, self.data0[qj] == qx))))
-        yield "entries-distinct", z3.ForAll([qi, qj], z3.Implies(z3.And(qi >= 0, qi < ln, qj >= 0, qj < ln, d[qi] == d[qj], d[qi] != 0), qi == qj))
+        yield "every-entry-at-its-recorded-position", self.link(ln, d, pos)
+        yield "registered-observers-kept", z3.ForAll([qx], self.inlist(ln, d, pos, qx) == self.inlist(self.len0, self.data0, self.pos0, qx))
         yield "still-many,depth-zero", z3.And(tag == 2, depth == 0, self.depth0 == 0)
 
     def _frame(self, I, ctx):
-        return [Loc((self.vec.oid, "len")), Loc((self.vec.oid, "data"))]
+        return [Loc((self.vec.oid, "len")), Loc((self.vec.oid, "data")), Loc((self.g.oid, "pos"))]
 
     @property
     def loops(self):
@@ -295,7 +345,7 @@ class CompactMany(ObsKernel):
 
     def post(self, I, ret):
         ctx = I.ctx
-        tag, single, ln, d, depth, pend = self.now(ctx)
+        tag, single, ln, d, depth, pend, pos = self.now(ctx)
         self.inv_post(I)
         ctx.oblige("ensures.deferred-while-notifying", z3.Implies(self.depth0 > 0, z3.And(
             pend, ln == self.len0, d == self.data0, tag == 2)), kind="post-normal")
@@ -331,13 +381,15 @@ class NotifyMany(ObsKernel):
                 g = k.g
                 cnt = ctx.store[(g.oid, "notified")]
                 ctx.write(Loc((g.oid, "notified")), z3.Store(cnt, base, cnt[base] + 1))
-                tag, single, ln, d, depth, pend = k.now(ctx)
+                tag, single, ln, d, depth, pend, pos = k.now(ctx)
                 nl, nd = ctx.fresh("len_after_notify"), ctx.fresh("data_after_notify", d.sort())
                 np_ = ctx.fresh("pending_after_notify", "bool")
+                npos = ctx.fresh("pos_after_notify", pos.sort())
                 ctx.assume(z3.And(nl >= ln, z3.ForAll([qi], z3.Implies(z3.And(qi >= 0, qi < ln), z3.Or(nd[qi] == d[qi], nd[qi] == 0))),
-                                  z3.Implies(z3.Exists([qi], z3.And(qi >= 0, qi < ln, nd[qi] != d[qi])), np_), z3.Implies(pend, np_),
-                                  z3.ForAll([qi, qj], z3.Implies(z3.And(qi >= 0, qi < nl, qj >= 0, qj < nl, nd[qi] == nd[qj], nd[qi] != 0), qi == qj)),
-                                  z3.Implies(z3.Exists([qi], z3.And(qi >= 0, qi < nl, nd[qi] == 0)), np_)))
+                                  z3.ForAll([qi], z3.Implies(z3.And(qi >= 0, qi < ln, nd[qi] != d[qi]), np_)), z3.Implies(pend, np_),
+                                  k.link(nl, nd, npos),
+                                  z3.ForAll([qi], z3.Implies(z3.And(qi >= 0, qi < nl, nd[qi] == 0), np_))))
+                ctx.write(Loc((g.oid, "pos")), npos)
                 un = ctx.store[(g.oid, "unsubscribed")]
                 un1 = ctx.fresh("unsubscribed_after_notify", un.sort())
                 ctx.assume(z3.ForAll([qx], z3.Implies(un[qx], un1[qx])))
@@ -352,17 +404,16 @@ class NotifyMany(ObsKernel):
     def _inv(self, I, ctx):
         idx = self.local(I, "index")
         limit = self.local(I, "limit")
-        tag, single, ln, d, depth, pend = self.now(ctx)
+        tag, single, ln, d, depth, pend, pos = self.now(ctx)
         cnt = ctx.store[(self.g.oid, "notified")]
         yield "index-range", z3.And(idx >= 0, idx <= limit, limit == self.len0, ln >= self.len0)
         yield "pass-in-progress", z3.And(tag == 2, depth == self.depth0 + 1)
         yield "entries-only-tombstoned", z3.ForAll([qi], z3.Implies(z3.And(qi >= 0, qi < self.len0), z3.Or(d[qi] == self.data0[qi], d[qi] == 0)))
-        yield "entries-distinct,tombstones-pending", z3.And(
-            z3.ForAll([qi, qj], z3.Implies(z3.And(qi >= 0, qi < ln, qj >= 0, qj < ln, d[qi] == d[qj], d[qi] != 0), qi == qj)),
-            z3.Implies(z3.Exists([qi], z3.And(qi >= 0, qi < ln, d[qi] == 0)), pend))
+        yield "every-entry-at-its-recorded-position,tombstones-pending", z3.And(
+            self.link(ln, d, pos), z3.ForAll([qi], z3.Implies(z3.And(qi >= 0, qi < ln, d[qi] == 0), pend)))
         yield "notified-at-most-once,only-original-entries-behind-the-index", z3.ForAll([qx], z3.And(
             cnt[qx] >= 0, cnt[qx] <= 1,
-            z3.Implies(cnt[qx] == 1, z3.Exists([qi], z3.And(qi >= 0, qi < idx, self.data0[qi] == qx, qx != 0)))))
+            z3.Implies(cnt[qx] == 1, z3.And(self.inlist(self.len0, self.data0, self.pos0, qx), self.pos0[qx] < idx))))
         yield "every-surviving-entry-behind-the-index-was-notified", z3.ForAll([qi], z3.Implies(
             z3.And(qi >= 0, qi < idx, d[qi] != 0), cnt[d[qi]] == 1))
         un = ctx.store[(self.g.oid, "unsubscribed")]
@@ -372,7 +423,7 @@ class NotifyMany(ObsKernel):
 
     def _frame(self, I, ctx):
         return [Loc((self.vec.oid, "len")), Loc((self.vec.oid, "data")), self.lst.loc("compact_pending"), Loc((self.g.oid, "notified")),
-                Loc((self.g.oid, "unsubscribed"))]
+                Loc((self.g.oid, "unsubscribed")), Loc((self.g.oid, "pos"))]
 
     @property
     def loops(self):
@@ -380,7 +431,7 @@ class NotifyMany(ObsKernel):
 
     def post(self, I, ret):
         ctx = I.ctx
-        tag, single, ln, d, depth, pend = self.now(ctx)
+        tag, single, ln, d, depth, pend, pos = self.now(ctx)
         cnt = ctx.store[(self.g.oid, "notified")]
         many = self.tag0 == 2
         ctx.oblige("ensures.not-many=>nothing-notified", z3.Implies(z3.Not(many), z3.ForAll([qx], cnt[qx] == 0)), kind="post-normal")
